@@ -10,7 +10,7 @@ TECHNIQUE = 'MIR path rules (ranking function of the main loop, typestate of the
 EXPLANATION = (
     "Decides on the MIR of the current tree, for all inputs: (R1) every cycle of the main loop either increments "
     "the iteration counter or switches the scaling strategy PrimalDual->Dual (which can happen once), i.e. a "
-    "lexicographic ranking function; (R2) in check_termination every path that leaves the status Unsolved tests "
+    "lexicographic ranking function, and after such a switch (status reset to Unsolved) the limits are re-tested before the counter moves on; (R2) in check_termination every path that leaves the status Unsolved tests "
     "max_iter against iterations with a comparison that is true at equality and then time_limit, and stores "
     "MaxIterations/MaxTime; the result is status != Unsolved; (R3) every cycle folds elapsed time into the root "
     "timer (Timers::suspend) so solve_time advances; (R4) the timer stack is balanced on every path; (R5) the "
